@@ -95,7 +95,7 @@ def do_runall(only=None):
     """Re-run every seed against the check(s) that detected it, on a scratch
     copy of /repo (OMEGA_SRC), so /repo itself is not touched."""
     base = os.path.join(VERIF, 'seeded')
-    scratch = '/var/tmp/omega_seed_scratch'
+    scratch = f'/var/tmp/omega_seed_scratch_{os.getpid()}'
     bad = []
     for name in sorted(os.listdir(base)):
         if only and not any(name.startswith(o) for o in only.split(',')):
